@@ -346,10 +346,10 @@ PROPERTIES = {
     "C09": {
         "level": "proof",
         "claim": "PARTIAL. Proved (Verus): the symbol table of src/symbols.rs on its REAL struct definitions - new / new_context / leave_context / current_context / in_function / resolve / define / enter_scope / leave_scope / reset_to_global and Context::new verbatim: a block opens exactly one empty scope and its end closes exactly that scope, a function body sees its own context and the global one, never an enclosing function's, declarations go to the innermost scope of the innermost context. Over the contracts of the two per-context functions (Context::define / resolve, stated on the VIEW stack-of-scopes-of-names of the real struct) the scoping statements of the property are lemmas for contexts of EVERY size: inner declarations shadow without disturbing the outer slot, the latest declaration of a name in a block takes over, other names are unaffected, a block's names cease to exist at its end, slots are in range. Context::define is proved total and appending for EVERY symbol count (Kani, modular over total_len). The compiler arms turn a resolved name into a load/store of exactly its slot in its scope's opcode family, an unresolved name is rejected before anything is emitted, and eval never enters the machine when compilation failed (Kani). BOUNDED (not proved): that the real Context::resolve / total_len compute the view functions (two scopes of 0..=2 names; three scopes).",
-        "note": "Context::define / resolve use iterator closures (fold, rev, rposition): no Verus model, so their view contracts are ASSUMED in the Verus unit and checked on the real code by Kani - define for all counts, resolve / total_len within the stated bound. Sequences of define calls do not finish in CBMC (measured: out of memory / > 600 s for 2+2 declarations), hence the composition is done by the Verus lemmas over views. The compiler units see the table through uninterpreted measures (scope depth, context count, enclosing depths) whose contracts restate those of this unit (link by reading). Trusted: Verus/Z3, Kani/CBMC, rules R4, R9.",
+        "note": "Context::define / resolve use iterator closures (fold, rev, rposition): no Verus model, so their view contracts are ASSUMED in the Verus unit and checked on the real code by Kani - define for all counts, resolve / total_len within the stated bound. Sequences of define calls do not finish in CBMC (measured: out of memory / > 600 s for 2+2 declarations), hence the composition is done by the Verus lemmas over views. The compiler units use the table through EXACTLY the contracts this unit proves (copied mechanically, //@ASSUMES full), over one shared vocabulary (symbols_spec.rs); their preconditions (a usable table `sym_wf`, depth >= 2 before leave_scope, a function context to leave) are proved at every call site of the compiler and are what makes the unwrap()s of symbols.rs unreachable. Trusted: Verus/Z3, Kani/CBMC, rules R4, R9.",
         "design_ref": "DESIGN.md 3.13",
         "undecided": ["Context::resolve beyond two scopes of two names (bounded)", "compile-time slot == run-time slot for every program (composition with C02/C12)"],
-        "assumptions": ["Context::resolve answers slot_of(view) for contexts larger than the Kani bound", "Context::total_len == flat_len(view) beyond the Kani bound", "the compiler units' symbol-table measures restate the contracts of unit c09_names (by reading)"],
+        "assumptions": ["Context::resolve answers slot_of(view) for contexts larger than the Kani bound", "Context::total_len == flat_len(view) beyond the Kani bound", "Context::define / resolve view contracts beyond what Kani checks (see undecided)"],
     },
     "C11": {
         "level": "proof",
